@@ -431,7 +431,8 @@ class Interp:
         "Lexer::start_token", "Lexer::add_line", "Lexer::mode", "Lexer::set_pending_stat",
         "Lexer::push_pending_stat", "Lexer::pop_pending_stat", "Lexer::pending_stat",
         "Lexer::mark_token_start", "Lexer::prep_error_info_at_cur_offset", "error::ErrorInfo::new",
-        "Lexer::cur_byte_offset", "Lexer::cur_char_offset", "text::ByteOffset::new", "text::CharOffset::new"])
+        "Lexer::cur_byte_offset", "Lexer::cur_char_offset", "text::ByteOffset::new", "text::CharOffset::new",
+        "Lexer::add_string_literal_from_src", "Lexer::resolve_string_literal_payload"])
 
     def owner(self):
         """Innermost active crate function that is not one of the thin Lexer wrappers."""
@@ -615,8 +616,9 @@ class Interp:
             for s in sts:
                 for o in self.ev(b["hir"], s, fidx):
                     if o.kind in ("val", "ret"):
+                        ret_frame = o.st.frames[fidx] if fidx < len(o.st.frames) else {}
                         o.st.frames = o.st.frames[:fidx]
-                        self.emit(o.st, "leave", node, callee=name, ret=o.val)
+                        self.emit(o.st, "leave", node, callee=name, ret=o.val, frame=ret_frame)
                         res.append(Out("val", o.val, o.st))
                     elif o.kind in ("panic", "loopback"):
                         res.append(o)
@@ -1079,7 +1081,8 @@ class Interp:
                 st.frames[loc[1]][loc[2]] = val
             return
         if loc[0] == "lasttok":
-            self.emit(st, "lasttok_write", node, accessor=loc[1], field=loc[2] if len(loc) > 2 else None, value=val)
+            self.emit(st, "lasttok_write", node, accessor=loc[1], field=loc[2] if len(loc) > 2 else None, value=val,
+                      epoch=st.tokens_epoch)
             return
         self.note_unanalysed("store through %r" % (loc,), node)
 
@@ -1827,7 +1830,8 @@ class Interp:
                     if entry_pos.get(cid) != c.pos:
                         moved.add(cid)
             for s in back1:
-                self.emit(s, "loop_back", n, loop=lid, iteration=1, progressed=s.cursors["main"].pos > entry_main_pos)
+                self.emit(s, "loop_back", n, loop=lid, iteration=1, progressed=s.cursors["main"].pos > entry_main_pos,
+                          frame=dict(s.frames[fidx]) if fidx < len(s.frames) else {})
             res_before = len(res)
             for _round in range(4):
                 del res[res_before:]
@@ -1851,7 +1855,8 @@ class Interp:
                         for cid, c in s2.cursors.items():
                             if cid in pos0 and pos0[cid] != c.pos and cid not in moved:
                                 more.add(cid)
-                        self.emit(s2, "loop_back", n, loop=lid, iteration=2, progressed=s2.cursors["main"].pos > pos0["main"])
+                        self.emit(s2, "loop_back", n, loop=lid, iteration=2, progressed=s2.cursors["main"].pos > pos0["main"],
+                                  frame=dict(s2.frames[fidx]) if fidx < len(s2.frames) else {})
                         # generic iteration reaching the back-edge again: covered by the widened state, but the
                         # path itself is kept (as a truncated path) so that per-iteration rules see its events
                         res.append(Out("loopback", None, s2))
